@@ -4,7 +4,7 @@ import json, os, re, subprocess, sys, time, tempfile, shutil, hashlib
 from . import build
 
 VERIF = build.VERIF
-EVID = os.path.join(VERIF, "evidence")
+EVID = os.environ.get("VERIF_EVIDENCE_DIR") or os.path.join(VERIF, "evidence")   # the override is used only by tools/seedtest.py (checks against a patched scratch copy)
 KNOWN = os.path.join(VERIF, "known-findings.txt")
 
 
